@@ -182,6 +182,7 @@ func cmdCheck(args []string) int {
 		timeout = 60
 	}
 	d := &Discharger{WorkDir: workDir, TimeoutS: timeout, Seed: seed, Par: runtime.NumCPU(), Retry: true}
+	fpRes := &FuncResult{Key: "contracts/fp (floating-point library lemmas)"}
 	funcs := append(propFuncs(p, id), cfg.Funcs...)
 	for _, k := range funcs {
 		res := generateOne(p, k, workDir, false)
@@ -194,6 +195,29 @@ func cmdCheck(args []string) int {
 		run.Results = append(run.Results, res)
 		run.Obls = append(run.Obls, res.Obls...)
 	}
+	// floating-point library lemmas used by the float kernels of these functions
+	fpSeen := map[string]bool{}
+	for _, r := range run.Results {
+		for _, n := range r.Notes {
+			const pfx = "float kernel backed by FP lemma contracts/fp/"
+			if strings.HasPrefix(n, pfx) {
+				name := strings.TrimSuffix(strings.TrimPrefix(n, pfx), ".smt2")
+				if !fpSeen[name] {
+					fpSeen[name] = true
+					o := &Obligation{Name: "fp-lemma[" + name + "]", Kind: "fp-lemma", Func: "contracts/fp", Pos: "contracts/fp/" + name + ".smt2", File: filepath.Join(verifDir, "contracts", "fp", name+".smt2")}
+					if st, err := os.Stat(o.File); err == nil {
+						o.Size = int(st.Size())
+					}
+					run.Obls = append(run.Obls, o)
+					fpRes.Obls = append(fpRes.Obls, o)
+				}
+			}
+		}
+	}
+	if len(fpRes.Obls) > 0 {
+		run.Results = append(run.Results, fpRes)
+	}
+	d.Retry = true
 	solveAll(run.Obls, d)
 	if cfg.Special != nil {
 		cfg.Special(p, run)
